@@ -289,6 +289,21 @@ impl Prop for C15 {
     }
 
     fn run(&self, case: &Case) -> Outcome {
+        // a view accessor that panics for some response value does not "return the protocol-specific value"
+        match crate::panics::catch(|| run_views(case)) {
+            Ok(o) => o,
+            Err(p) => {
+                let mut o = Outcome::new();
+                o.nontrivial = true;
+                o.fail(format!("C15|panic in a view accessor|{}|{}", p.site(), p.class()), json!({"panic": p}));
+                o
+            }
+        }
+    }
+}
+
+fn run_views(case: &Case) -> Outcome {
+    {
         let mut o = Outcome::new();
         match case {
             Case::Valve { st, players, rules } => {
